@@ -2,7 +2,7 @@
 \* breaks, one atom character), deeper nesting
 SPECIFICATION Spec
 CONSTANTS
-  Chars = {"LP", "RP", "SP", "LF", "CR", "DQ", "BAR", "SEMI", "A"}
+  Chars = {"LP", "RP", "SP", "LF", "CR", "DQ", "BAR", "SEMI", "A", "BS"}
   MaxLen = 8
   MaxDepth = 3
 INVARIANT TypeOK
